@@ -261,6 +261,12 @@ theorem chunk_len {ρ' : Type} (k : Nat) (it : BufferedIter) (h : it.current_idx
     (ChunkIt.len k it : PF ρ' _) = .ret (.norm (it.initial_len - it.current_idx)) := by
   simp [ChunkIt.len, m_fn, bind, PF.bind, Prog.bind, op_sub, h, pure]
 
+/-- `Iterator::size_hint` of the chunk's value iterator is exact — `(len, Some(len))`, std's requirement on an
+`ExactSizeIterator` (repaired by `bfb3855`: it was std's default `(0, None)`) -/
+theorem chunk_size_hint {ρ' : Type} (k : Nat) (it : BufferedIter) (h : it.current_idx ≤ it.initial_len) :
+    (ChunkIt.size_hint k it : PF ρ' _) = .ret (.norm (it.initial_len - it.current_idx, some (it.initial_len - it.current_idx))) := by
+  simp [ChunkIt.size_hint, m_fn, bind, PF.bind, Prog.bind, op_sub, h, pure]
+
 theorem collect_nones {ρ : Type} (lo : Nat) : ∀ (k i : Nat) (acc : List (Option Nat)),
     collectAux (ρ := ρ) (fun i => (do
       match ← (pure (some (lo + i)) : PF ρ (Option Nat)) with
@@ -281,9 +287,9 @@ theorem buf_new {ρ' : Type} (f n : Nat) : (BufIter.new f n : PF ρ' _) = .ret (
   rw [h]
   simp [Prog.bind]
 
-/-- the chunk value iterator defines `next` and `len` only and has no destructor: `nth`, `last`, `fold`, `count`, `size_hint`, …
+/-- the chunk value iterator defines `next`, `size_hint` and `len` only and has no destructor: `nth`, `last`, `fold`, `count`, …
 are std's defaults over `next` (so `chunk_next_tree` covers them), and an unconsumed slot simply stays in the buffer that owns it -/
 theorem chunk_iterator_defines_next_and_len_only :
-    ChunkIt.iterator_overrides = ["next"] ∧ ChunkIt.exact_size_overrides = ["len"] ∧ ChunkIt.has_drop = false := by decide
+    ChunkIt.iterator_overrides = ["next", "size_hint"] ∧ ChunkIt.exact_size_overrides = ["len"] ∧ ChunkIt.has_drop = false := by decide
 
 end Orx.GenThms.Proto
